@@ -780,7 +780,19 @@ Fixpoint bad_indices (k : N) (ms os : list (reply * creds)) : list N :=
   | [], [] => []
   | _, _ => [k]
   end.
+(* with inode_file_handles the server keeps no descriptor for an inode: open_by_handle_at on an inode whose last
+   link is gone answers ESTALE.  That kernel behaviour is NOT modelled; an observed ESTALE reply under that
+   configuration is not compared with the model (credentials still are). *)
+Definition stale_obs (cf : cfg) (o : reply * creds) : bool :=
+  c_ifh cf && match fst o with RpErr e => e =? ESTALE | _ => false end.
+Fixpoint bad_indices_cf (cf : cfg) (k : N) (ms os : list (reply * creds)) : list N :=
+  match ms, os with
+  | m :: ms', o :: os' => if obs_ok m o || (stale_obs cf o && creds_eqb (snd m) (snd o))
+                          then bad_indices_cf cf (k + 1) ms' os' else k :: bad_indices_cf cf (k + 1) ms' os'
+  | [], [] => []
+  | _, _ => [k]
+  end.
 Definition hist_bad (cf : cfg) (h : host) (root : N) (qs : list sreq) (os : list (reply * creds)) : list N :=
-  bad_indices 0 (fst (run cf (start h root) qs)) os.
+  bad_indices_cf cf 0 (fst (run cf (start h root) qs)) os.
 Definition hist_ok (cf : cfg) (h : host) (root : N) (qs : list sreq) (os : list (reply * creds)) : bool :=
   match hist_bad cf h root qs os with [] => true | _ => false end.
